@@ -102,6 +102,7 @@ type g struct {
 	swVals  map[string][]string
 	autos   []string
 	scripts []string
+	lits    []string
 }
 
 func (x *g) id(prefix string) string {
@@ -338,6 +339,19 @@ func (x *g) value() []string {
 var words = []string{"Hello", "there,", "{PLAYER}!", "How", "are", "you", "doing", "today?", "Wi", "m", "x.", "supercalifragilistic", "a", "I", "é", "ポケ"}
 
 func (x *g) literal(long bool) string {
+	r := x.r
+	// repeated content (within a file) exercises de-duplication and any result cache
+	if len(x.lits) > 0 && r.P(0.3) {
+		return x.lits[r.Intn(len(x.lits))]
+	}
+	s := x.freshLiteral(long)
+	if len(x.lits) < 8 {
+		x.lits = append(x.lits, s)
+	}
+	return s
+}
+
+func (x *g) freshLiteral(long bool) string {
 	r := x.r
 	n := r.Range(0, 3)
 	if long {
